@@ -26,13 +26,14 @@ def _split_runs(lines):
     return runs
 
 
-def validate_sharded(pid, trace_module, cfg, trace_path, nshards, timeout=3000, xmx="4g", env_extra=None):
-    """Validate a trace file in parallel shards. Returns (total_lines, results list, bad runs list, states)."""
+def validate_sharded(pid, trace_module, cfg, trace_path, nshards, timeout=3000, xmx="4g", env_extra=None, header=()):
+    """Validate a trace file in parallel shards. Returns (total_lines, results list, bad runs list, states).
+    header: lines put at the head of every shard (facts observed once that every shard's lines are judged against)."""
     with open(trace_path) as f:
         lines = [ln.rstrip("\n") for ln in f if ln.strip()]
     if not lines:
         raise vlib.ToolError("empty trace %s" % trace_path)
-    shards = vlib.shard_lines(lines, nshards)
+    shards = [list(header) + sh for sh in vlib.shard_lines(lines, nshards)]
     jobs = []
     paths = []
     for k, sh in enumerate(shards):
@@ -112,6 +113,11 @@ def run(pid, tier, cfg):
         vlib.run_harness(binary, [cfg["sub"]] + args, stdout_path=tp)
         traces.append(tp)
     tmod, tcfg = cfg["trace"]
+    header = []
+    if cfg.get("probe_args"):
+        hp = os.path.join(tdir, "%s-probe.ndjson" % pid)
+        vlib.run_harness(binary, [cfg["sub"]] + cfg["probe_args"], stdout_path=hp)
+        header = [ln.rstrip("\n") for ln in open(hp) if ln.strip()]
     total_lines = 0
     bad = []
     tv_states = 0
@@ -120,7 +126,7 @@ def run(pid, tier, cfg):
     samples = []
     for tp in traces:
         n, results, bad_runs, st = validate_sharded(pid, tmod, tcfg, tp, cfg.get("shards", {}).get(tier, 8),
-                                                    env_extra=cfg.get("trace_env"))
+                                                    env_extra=cfg.get("trace_env"), header=header)
         total_lines += n
         tv_states += st
         bad += bad_runs
@@ -143,7 +149,7 @@ def run(pid, tier, cfg):
             if d not in known_hits:
                 known_hits.append(d)
             continue
-        inp = b["events"][0].get("inp")
+        inp = b["events"][0].get("inp") or cfg.get("probe_replay_input")      # a rejected probe line is re-observed by any replay
         path = vlib.save_replay(pid, "tv", {"property": pid, "sub": cfg["sub"], "replay_args": cfg["replay_args"],
                                               "trace": list(cfg["trace"]), "input": inp, "line_in_run": b["line"], "observed": b["events"]})
         evs = b["events"]
@@ -182,7 +188,12 @@ def replay(pid, cfg, path):
         f.write(json.dumps(obj["input"]) + "\n")
     tp = os.path.join(tdir, "%s-rp.ndjson" % pid)
     vlib.run_harness(binary, [cfg["sub"]] + cfg["replay_args"], stdin_path=rp, stdout_path=tp)
-    n, results, bad, st = validate_sharded(pid, cfg["trace"][0], cfg["trace"][1], tp, 1, env_extra=cfg.get("trace_env"))
+    header = []
+    if cfg.get("probe_args"):
+        hp = os.path.join(tdir, "%s-rp-probe.ndjson" % pid)
+        vlib.run_harness(binary, [cfg["sub"]] + cfg["probe_args"], stdout_path=hp)
+        header = [ln.rstrip("\n") for ln in open(hp) if ln.strip()]
+    n, results, bad, st = validate_sharded(pid, cfg["trace"][0], cfg["trace"][1], tp, 1, env_extra=cfg.get("trace_env"), header=header)
     print(open(tp).read())
     if bad:
         print("VIOLATION property=%s replay=%s" % (pid, path))
